@@ -210,6 +210,7 @@ func runC19(w *core.World, r *core.Report) {
 	checkBorrowed(w, r)
 
 	// ---- R3 -----------------------------------------------------------------------------------
+	r.Rule("R8", "no lock on package-level state is acquired again while it is held (directly or through a call): sessions cannot wedge each other")
 	r.Rule("R7", "sessions are kept apart in the store's key space (C10 R5): the session prefix is decided by the documented threshold on the data type, so every session-scoped type - built-in or application-defined - carries it")
 	r.Rule("R6", "no package-level function of a third-party package that writes that package's own package-level state is called on the request path")
 	r.Rule("R5", "slices returned by external code in a resource.Result are never appended to")
@@ -222,6 +223,7 @@ func runC19(w *core.World, r *core.Report) {
 	checkNoAppendToResultSlices(w, r, "R5")
 	checkThirdPartyGlobals(w, r, "R6", reach)
 	checkScopedTypes(w, r, "R7")
+	checkNoNestedLockAcquisition(w, r, "R8")
 }
 
 // checkResourceStateless: the lookup methods of the library's Resource implementations (and what
